@@ -86,3 +86,125 @@ def reporter_cases(chk, reporters=("text", "cute", "xml"), modes=("forked",)):
                         cases.append((root, rep, m))
         chk.count("code-tie:reporter-differences", len(diffs))
     return cases
+
+
+# ------------------------------------------------------------------------------------------
+# the other translated programs: enumerated inputs, translated code (interpreter) against the model
+# ------------------------------------------------------------------------------------------
+def _hex(b):
+    return b.hex() if b else "-"
+
+
+def _run_pairs(chk, lines, tag):
+    """-> [(case index, part name, code, model)] where they differ"""
+    out = vlib.run_model("code", lines)
+    diffs = []
+    nparts = 0
+    for i, o in enumerate(out):
+        for part in o.split(" ; "):
+            nparts += 1
+            name, rest = part.split(" ", 1)
+            code, model = [x.strip() for x in rest.split("|")]
+            if code != model:
+                diffs.append((i, name, code, model))
+    chk.count("code-tie:%s-inputs" % tag, len(lines))
+    chk.count("code-tie:%s-comparisons" % tag, nparts)
+    if diffs:
+        chk.count("code-tie:%s-differences" % tag, len(diffs))
+    return diffs
+
+
+def _strings(alphabet, maxlen):
+    for n in range(maxlen + 1):
+        for t in itertools.product(alphabet, repeat=n):
+            yield bytes(t)
+
+
+def string_function(chk, which, inputs, what):
+    """which: percent | xmlesc | names.  Returns the input strings on which translated code and model differ
+    (shortest first); each of the first few is recorded as a disagreement."""
+    inputs = list(dict.fromkeys(inputs))
+    diffs = _run_pairs(chk, ["(str %s %s)" % (which, _hex(b)) for b in inputs], which)
+    bad = sorted({inputs[i] for i, _, _, _ in diffs}, key=lambda b: (len(b), b))
+    for i, name, code, model in sorted(diffs, key=lambda d: (len(inputs[d[0]]), inputs[d[0]]))[:3]:
+        chk.disagreement("translated %s differs from the model on %r: code %s, model %s" % (what, inputs[i], code[:200], model[:200]),
+                         {"input_hex": _hex(inputs[i]), "function": what, "code": code, "model": model,
+                          "how": "printf '(str %s %s)\\n' | ocaml/driver code" % (which, _hex(inputs[i]))})
+    return bad
+
+
+def percent_inputs(chk):
+    ins = list(_strings(b"%a", 7 if chk.tier == "quick" else 10))
+    ins += list(_strings(b"%s\x80 ", 4))
+    for _ in range(50 if chk.tier == "quick" else 2000):
+        n = chk.rng.choice([8, 17, 64, 255, 256, 257, 1000])
+        ins.append(bytes(chk.rng.choice(b"%%%abc d\xff") for _ in range(n)))
+    return ins
+
+
+def xmlesc_inputs(chk):
+    ins = [bytes([b]) for b in range(1, 256)]                       # every byte value
+    special = b"\"&<>'\t\n\r\x01\x0b\x0c\x1f \x7f\x80a"
+    ins += list(_strings(special, 2))
+    ins += [bytes([b, 97, b]) for b in range(1, 256)]
+    for _ in range(30 if chk.tier == "quick" else 2000):
+        n = chk.rng.choice([3, 10, 100, 999, 1000, 1001])
+        ins.append(bytes(chk.rng.choice(special + b"abc") for _ in range(n)))
+    return ins
+
+
+def names_inputs(chk, extra=()):
+    ins = list(_strings(b"a, (", 5 if chk.tier == "quick" else 7))
+    ins += list(_strings(b"ad()\t", 4))
+    toks = [b"a", b"ab", b"d", b"box_double", b"box_double(x)", b"box_double( y )", b"box_double (z)", b"d(w)", b"(", b")", b",", b" ", b", ", b"\n"]
+    for _ in range(300 if chk.tier == "quick" else 20000):
+        ins.append(b"".join(chk.rng.choice(toks) for _ in range(chk.rng.choice([1, 2, 3, 5, 8]))))
+    ins += list(extra)
+    return [b for b in ins if 0 not in b]
+
+
+def matches(chk):
+    """test_matches_pattern(): patterns over {a, b, *, :} against contexts and names over {a, b}"""
+    pats = [p for p in _strings(b"ab*:", 4 if chk.tier == "quick" else 5)]
+    pats += [b"*a*b", b"a*:*ab", b"*:*_1_2", b"*ss", b"*aab", b"a*ab", b"*abab"]
+    words = [w for w in _strings(b"ab", 3)] + [b"aab", b"aaab", b"abab", b"ababab", b"adds_1_1_2", b"passs", b"default"]
+    cases = []
+    for p in pats:
+        for c in (b"a", b"ab", b"default", b"aab"):
+            for n in (words if len(p) <= 3 or b"*" in p else words[:6]):
+                cases.append((p, c, n))
+    if chk.tier == "quick":
+        cases = cases[::3] + [c for c in cases if c[0] in (b"*:*_1_2", b"*ss", b"*aab", b"a*ab", b"*abab", b"*a*b", b"a*:*ab")]
+    diffs = _run_pairs(chk, ["(match %s %s %s)" % (_hex(p), _hex(c), _hex(n)) for p, c, n in cases], "matches")
+    bad = []
+    for i, name, code, model in diffs:
+        bad.append(cases[i])
+    for p, c, n in bad[:3]:
+        chk.disagreement("translated test_matches_pattern() differs from the model: pattern %r, context %r, test %r" % (p, c, n),
+                         {"pattern": p.decode("latin-1"), "context": c.decode("latin-1"), "name": n.decode("latin-1"),
+                          "how": "printf '(match %s %s %s)\\n' | ocaml/driver code" % (_hex(p), _hex(c), _hex(n))})
+    return bad
+
+
+def mocks_queue(chk, unlimited):
+    """the queue functions of src/mocks.c on every queue of up to 3 (quick) / 4 entries over two functions and the
+    four kinds of time-to-live, for a function that is / is not in the queue"""
+    kinds = [(f, ttl, trig) for f in (0, 1) for ttl, trig in ((1, 0), (2, 1), (unlimited, 0), (-unlimited, 0), (-unlimited, 2))]
+    maxlen = 3 if chk.tier == "quick" else 4
+    lines, meta = [], []
+    for n in range(maxlen + 1):
+        for t in itertools.product(kinds, repeat=n):
+            q = " ".join("(%d %d %d 0 %d)" % (f, i + 1, ttl, trig) for i, (f, ttl, trig) in enumerate(t))
+            for f in (0, 1, 2):
+                lines.append("(mocks %d %d (%s))" % (unlimited, f, q))
+                meta.append((t, f))
+    for l in ([], [0], [1, 0], [0, 0, 2], [3, 1, 3]):
+        for f in (0, 1, 2, 3):
+            lines.append("(succ %d %d (%s))" % (unlimited, f, " ".join(map(str, l))))
+            meta.append((("succ", tuple(l)), f))
+    diffs = _run_pairs(chk, lines, "mocks")
+    for i, name, code, model in diffs[:3]:
+        chk.disagreement("translated %s of src/mocks.c differs from Mocks.v on the queue %s, function f%d: code %s, model %s" % (
+            name, meta[i][0], meta[i][1], code[:160], model[:160]),
+            {"case": lines[i], "function": name, "code": code, "model": model, "how": "printf '%s\\n' | ocaml/driver code" % lines[i]})
+    return [(meta[i], name) for i, name, _, _ in diffs]
